@@ -1,7 +1,7 @@
 """assumptions / trusted base shared by the UPER checks"""
 ASSUMPTIONS = [
     "dev profile (overflow checks, debug assertions), as used by the project's tests; release profile not modelled",
-    "the compositional mirror Uper/Impl.lean is tied to the position-patching UperWriter/UperReader only by differential execution over the compiled zoo (valid values, violations, version pairs, hostile bits)",
+    "the compositional mirror Uper/Impl.lean is tied to the position-patching UperWriter/UperReader (a) by differential execution over the compiled zoo (valid values, violations, version pairs, hostile bits) and (b) through the faithful model of the Scope state machine Uper/Scope.lean (positions, calls_until_ext_bitfield, sub-writers): Props/Scope.lean proves that it refines the mirror (writer: every descriptor and value, no patch beyond the written length; reader: every descriptor without a mandatory SEQUENCE/SET-typed extension addition, which the converter never generates), and the driver answers every request below 24000 characters with both models (`scope-mismatch` on a difference)",
     "types: the zoo harness/zoo/*.asn1 compiled by the real converter (about 300 types); descriptors are what the codec sees through its Constraint traits",
     "u64 values >= 2^63 and literal upper bounds of exactly i64::MAX are outside the profile (DESIGN.md 4.2)",
 ]
